@@ -7,8 +7,8 @@ import mir, sym, smt, models, native
 from q_c30 import subrun, closure_fn, follow
 
 BOUNDS = ["symbolic index, arbitrary transaction (getters opaque); loop-free bodies"]
-OUTSIDE = ["what the getters themselves return (outputs / output_at / collateral_return / is_valid per era: Kani harnesses c31_*)",
-           "consumes() (HashSet de-duplication), inputs_sorted_set"]
+OUTSIDE = ["what the getters themselves return (outputs / output_at / collateral_return / is_valid / inputs / collateral per era: Kani harnesses c31_* for part of them)",
+           "inputs_sorted_set; HashSet itself (insert returns true exactly at the first occurrence: trusted)"]
 ASSUMPTIONS = ["is_valid, outputs, output_at, collateral_return are pure functions of &self (they read the transaction only)",
                "Vec::into_iter().enumerate().collect() yields (0, v[0]), (1, v[1]), ..; Option::into_iter().map(f).collect() yields [f(x)] for Some(x) and [] for None"]
 U = z3.DeclareSort("Val")
@@ -57,6 +57,8 @@ def m_collect(ex, path, frame, callee, argv, argty, dest_ty):
         it = x.fields[(None, "0")]
         if isinstance(it, sym.VAdt) and it.ty == "vec_iter":
             return [(path, sym.VAdt("enumerated_vec", None, {(None, "0"): it.fields[(None, "0")]}, uid=ex.fresh_uid(path, "ev")))]
+    if x.ty == "filter":
+        return [(path, sym.VAdt("filtered_vec", None, {(None, "0"): x.fields[(None, "0")], (None, "1"): x.fields[(None, "1")]}, uid=ex.fresh_uid(path, "fv")))]
     if x.ty == "map":
         it, cl = x.fields[(None, "0")], x.fields[(None, "1")]
         if isinstance(it, sym.VAdt) and it.ty == "opt_iter":
@@ -82,7 +84,32 @@ def m_collect(ex, path, frame, callee, argv, argty, dest_ty):
     return None
 
 
+def m_pure2(ex, path, frame, callee, argv, argty, dest_ty):
+    name = callee.split("::")[-1]
+    return [(path, sym.VUnknown("pure:" + name, dest_ty))]
+
+
+def m_set_new(ex, path, frame, callee, argv, argty, dest_ty):
+    return [(path, sym.VAdt("empty_hashset", None, {}, uid=ex.fresh_uid(path, "set")))]
+
+
+def m_set_insert(ex, path, frame, callee, argv, argty, dest_ty):
+    _, st = follow(ex, path, argv[0], 3)
+    path.events.append(("set_insert", st.uid if isinstance(st, sym.VAdt) else repr(st), argv[1].uid if isinstance(argv[1], sym.VUnknown) else repr(argv[1])))
+    return [(path, sym.VBool(z3.Bool("first_occurrence")))]
+
+
+def m_output_ref(ex, path, frame, callee, argv, argty, dest_ty):
+    _, x = follow(ex, path, argv[0], 2)
+    return [(path, sym.VUnknown("output_ref(" + (x.uid if isinstance(x, sym.VUnknown) else "?") + ")", dest_ty))]
+
+
 MODELS = [
+    (r"^tx::<impl MultiEraTx<'_>>::(inputs|collateral)$", m_pure2),
+    (r"^HashSet::<.*>::new$", m_set_new),
+    (r"^HashSet::<.*>::insert$", m_set_insert),
+    (r"^input::<impl MultiEraInput<'_>>::output_ref$", m_output_ref),
+    (r"as Iterator>::filter::<.*>$", wrap("filter")),
     (r"^tx::<impl MultiEraTx<'_>>::(is_valid|outputs|output_at|collateral_return)$", m_pure),
     (r"^Vec::<.*>::len$", m_len),
     (r"^<Vec<.*> as IntoIterator>::into_iter$", wrap("vec_iter")),
@@ -167,6 +194,47 @@ def run(ctx):
             queries.append(smt.Query(f"c31_produces_path{i}_invalid_is_collateral_return_at_n", cond + [z3.Not(valid), z3.Not(good)], meta=dict(meta, what="invalid transaction: produces() is not exactly the collateral return (if any) at index outputs.len()")))
         if n < 3:
             problems.append(f"produces: only {n} returning paths")
+    # ---- consumes: inputs (valid) / collateral (invalid), each output reference kept at its first occurrence only
+    f = fn("consumes")
+    if f is None:
+        problems.append("consumes not found")
+    else:
+        ex = sym.Executor(funcs, models=MODELS, inline=lambda c, g: False, max_visits=2, variant_index=ctx.variant_index(funcs))
+        paths = ex.run(f, [sym.VRef("H:tx")], objs={"H:tx": sym.VUnknown("tx")})
+        ctx.encoded |= ex.encoded
+        if [u for u in ex.uninterpreted if "drop" not in u]:
+            problems.append(f"consumes: uninterpreted {sorted(ex.uninterpreted)}")
+        n = 0
+        for i, p in enumerate(paths):
+            if p.outcome[0] != "return":
+                continue
+            n += 1
+            r, cond = p.ret, list(p.cond)
+            meta = {"fn": "consumes", "idx": idx, "valid": valid, "nout": nout}
+            shape = isinstance(r, sym.VAdt) and r.ty == "filtered_vec"
+            src = cl = None
+            if shape:
+                it = r.fields[(None, "0")]
+                src = it.fields.get((None, "0")) if isinstance(it, sym.VAdt) and it.ty == "vec_iter" else None
+                cl = r.fields[(None, "1")]
+            src_uid = src.uid if isinstance(src, sym.VUnknown) else "?"
+            queries.append(smt.Query(f"c31_consumes_path{i}_valid_filters_inputs", cond + [valid, z3.BoolVal(not (shape and src_uid == "pure:inputs"))], meta=dict(meta, what="valid transaction: consumes() is not a filter over inputs()")))
+            queries.append(smt.Query(f"c31_consumes_path{i}_invalid_filters_collateral", cond + [z3.Not(valid), z3.BoolVal(not (shape and src_uid == "pure:collateral"))], meta=dict(meta, what="invalid transaction: consumes() is not a filter over collateral()")))
+            # the filter predicate: first occurrence of the element's output reference in a set that starts empty
+            okp = False
+            if shape and isinstance(cl, sym.VAdt):
+                envset = cl.fields.get((None, "0"))
+                _, st = follow(ex, p, envset, 3) if isinstance(envset, sym.VRef) else (None, envset)
+                cf = closure_fn(ex, str(cl.ty), {"func": f})
+                if cf is not None and isinstance(st, sym.VAdt) and st.ty == "empty_hashset":
+                    p.objs["H:cl"] = cl
+                    p.objs["H:x"] = sym.VUnknown("elem")
+                    res = subrun(ex, p, cf, [sym.VRef("H:cl"), sym.VRef("H:x")])
+                    okp = len(res) == 1 and isinstance(res[0][1], sym.VBool) and str(res[0][1].e) == "first_occurrence" and \
+                        any(e[0] == "set_insert" and e[1] == st.uid and e[2] == "output_ref(elem)" for e in res[0][0].events)
+            queries.append(smt.Query(f"c31_consumes_path{i}_keeps_first_occurrence_of_each_output_ref", cond + [z3.BoolVal(not okp)], meta=dict(meta, what="consumes(): the filter is not `first occurrence of the element's output reference` over a fresh set")))
+        if n < 2:
+            problems.append(f"consumes: only {n} returning paths")
     queries.append(smt.Query("c31_reachable_witness", [z3.Not(valid), idx == nout], expect="sat", meta={"witness": True}))
     return queries, problems, {}
 
